@@ -183,11 +183,10 @@ impl Check for C14 {
                     .trace
                     .iter()
                     .filter(|e| {
-                        e.existed
-                            && before_files.contains_key(e.path.rsplit('/').next().unwrap_or(""))
-                            && !e.frozen
-                            && e.path.starts_with(&format!("{}/", out_root))
-                            && matches!(e.op, Op::OpenW | Op::Unlink | Op::Rename | Op::Truncate | Op::Utimens | Op::Chmod)
+                        let pre = |p: &str| p.starts_with(&format!("{}/", out_root)) && before_files.contains_key(p.rsplit('/').next().unwrap_or(""));
+                        !e.frozen
+                            && matches!(e.op, Op::OpenW | Op::Unlink | Op::Rename | Op::Link | Op::Truncate | Op::Utimens | Op::Chmod)
+                            && ((e.existed && pre(&e.path)) || (e.op == Op::Rename && pre(&e.path2)))
                     })
                     .map(|e| format!("{}:{}", e.op.name(), e.path.rsplit('/').next().unwrap_or("")))
                     .collect();
@@ -284,13 +283,7 @@ impl Check for C14 {
                 );
             } else if forced {
                 co.count("forced_runs", 1);
-                let written: Vec<String> = r
-                    .res
-                    .trace
-                    .iter()
-                    .filter(|e| e.op == Op::OpenW && !e.frozen && e.ret >= 0)
-                    .map(|e| e.path.rsplit('/').next().unwrap_or("").to_string())
-                    .collect();
+                let written: Vec<String> = r.res.written_names();
                 let missing: Vec<&String> = reference
                     .keys()
                     .filter(|n| !written.contains(n))
